@@ -315,6 +315,12 @@ class Facts:
             for im in d['impls']:
                 im['crate'] = cr
                 self.impls.append(im)
+        import symex as _symex
+        _symex.PROMOTED.clear()
+        _symex._PROMOTED_CACHE.clear()
+        for k, b in self.bodies.items():
+            if b.kind == 'Promoted':
+                _symex.PROMOTED[k] = b
         # trait item -> implementing defs (class hierarchy fallback)
         self.trait_impls = collections.defaultdict(list)
         for im in self.impls:
